@@ -115,6 +115,14 @@ func sshKeyType(s string) (string, bool) {
 		return "", false
 	}
 	if t := fields[0]; t == string(typeBytes) {
+		// A key of a type we do support can only be skipped if it is a valid
+		// key that was refused for another reason (like its size): a malformed
+		// ssh-ed25519 or ssh-rsa line is an error like any other malformed line.
+		if t == "ssh-ed25519" || t == "ssh-rsa" {
+			if _, _, _, _, err := ssh.ParseAuthorizedKey([]byte(s)); err != nil {
+				return "", false
+			}
+		}
 		return t, true
 	}
 	return "", false
